@@ -125,6 +125,7 @@ type Part struct {
 	Known        map[string]int    `json:"known_hits"`
 	KnownWhat    map[string]string `json:"known_what"`
 	DetChecks    int               `json:"determinism_double_executions"`
+	Digest       string            `json:"digest"` // fold of (history hash, observation hash) of every generated record, in order
 	HarnessErr   string            `json:"harness_error,omitempty"`
 	WallS        float64           `json:"wall_s"`
 	Extra        map[string]any    `json:"extra,omitempty"`
@@ -315,6 +316,7 @@ func (s *state) run(rec any, counting bool) (*Outcome, *Violation) {
 	}
 	p := s.part
 	if counting {
+		p.Digest = Hash(p.Digest, out.HistHash, out.ObsHash)
 		p.Evaluations++
 		p.Ops += out.Ops
 		p.Steps += out.Steps
